@@ -329,12 +329,25 @@ func (l *ledgerRun) replayBlock(id int, oget refmodel.Getter) {
 			return
 		}
 		cum += gas
+		// what is left in the block after this transaction is the limit minus what the receipts add up to
+		if left := gp.Gas(); left != b.GasLimit()-cum {
+			c.add("gas-left-in-block-wrong", id, "block id %d after tx %d (kind %d): the block's gas pool holds %d, block limit %d - cumulative gas used %d = %d", id, i, kind, left, b.GasLimit(), cum, b.GasLimit()-cum)
+			return
+		}
 		after := total()
 		if len(c.vs) > 0 {
 			return
 		}
 		l.col.Inc("txs_replayed")
 		switch kind {
+		case TxDelegateSelfDestruct:
+			if st.GetCodeSize(u.Contracts["sdlib"]) == 0 {
+				c.add("library-destroyed-by-a-delegated-selfdestruct", id, "block id %d tx %d: a wallet ran the library's SELFDESTRUCT through DELEGATECALL/CALLCODE; afterwards the library account has no code", id, i)
+				return
+			}
+			if st.GetCodeSize(*tx.To()) == 0 {
+				l.col.Inc("probe_selfdestruct_through_delegatecall_or_callcode")
+			}
 		case TxBalanceArith:
 			l.col.Inc("probe_balance_values_used_in_arithmetic")
 		case TxFundCreate:
@@ -355,7 +368,7 @@ func (l *ledgerRun) replayBlock(id int, oget refmodel.Getter) {
 				c.add("transaction-created-coins", id, "block id %d tx %d (kind %d): total supply rose from %v to %v while executing a transaction", id, i, kind, cur, after)
 				return
 			}
-			if after.Cmp(cur) < 0 && kind != TxSelfDestruct && kind != TxSelfDestructLoop {
+			if after.Cmp(cur) < 0 && kind != TxSelfDestruct && kind != TxSelfDestructLoop && kind != TxDelegateSelfDestruct {
 				c.add("transaction-destroyed-coins-without-selfdestruct", id, "block id %d tx %d (kind %d): total supply fell from %v to %v", id, i, kind, cur, after)
 				return
 			}
@@ -391,7 +404,7 @@ func (l *ledgerRun) replayBlock(id int, oget refmodel.Getter) {
 		// the reported figure is at least half the intrinsic gas in those templates
 		// and at least the intrinsic gas in all others
 		floor := intr
-		if kind == TxSelfDestruct || kind == TxSelfDestructLoop || kind == TxSetStorage || kind == TxExtSize {
+		if kind == TxSelfDestruct || kind == TxSelfDestructLoop || kind == TxDelegateSelfDestruct || kind == TxSetStorage || kind == TxExtSize {
 			floor = (intr + 1) / 2
 		}
 		if gas < floor || gas > tx.Gas() {
@@ -405,7 +418,7 @@ func (l *ledgerRun) replayBlock(id int, oget refmodel.Getter) {
 			recipients[*tx.To()] = true
 		}
 		switch kind {
-		case TxSelfDestruct, TxForward, TxCallThenRevert, TxFundCreate:
+		case TxSelfDestruct, TxDelegateSelfDestruct, TxForward, TxCallThenRevert, TxFundCreate:
 			recipients[common.BytesToAddress(tx.Data()[12:32])] = true
 		case TxSelfDestructLoop:
 			recipients[common.BytesToAddress(tx.Data()[12:32])] = true
@@ -515,7 +528,7 @@ func (l *ledgerRun) replayBlock(id int, oget refmodel.Getter) {
 			c.add("block-created-more-than-issuance", id, "block id %d (#%v, %d uncles): supply grew by %v, scheduled issuance %v", id, num, len(un), delta, iss)
 			return
 		}
-		if delta.Cmp(iss) != 0 && !hasKind(u.TxMeta[id], TxSelfDestruct) && !hasKind(u.TxMeta[id], TxSelfDestructLoop) && !hf4 {
+		if delta.Cmp(iss) != 0 && !hasKind(u.TxMeta[id], TxSelfDestruct) && !hasKind(u.TxMeta[id], TxSelfDestructLoop) && !hasKind(u.TxMeta[id], TxDelegateSelfDestruct) && !hf4 {
 			c.add("block-issuance-not-exact", id, "block id %d (#%v, %d uncles, no self-destruct): supply grew by %v, scheduled issuance %v", id, num, len(un), delta, iss)
 			return
 		}
@@ -711,6 +724,11 @@ func (l *ledgerRun) nodeLedger(i int, n *Node) {
 		bal[a] = big.NewInt(1000 + int64(k))
 		sdAlive[a] = true
 	}
+	for k := 0; k < 2; k++ {
+		a := u.Contracts[fmt.Sprintf("dsd%d", k)]
+		bal[a] = big.NewInt(2000 + int64(k))
+		sdAlive[a] = true
+	}
 	for _, id := range path {
 		b := u.Blocks[id]
 		if h := u.Cfg.GetHF(4); h != nil && h.Cmp(b.Number()) == 0 {
@@ -754,7 +772,7 @@ func (l *ledgerRun) nodeLedger(i int, n *Node) {
 				to := common.BytesToAddress(tx.Data()[12:32])
 				get(from).Sub(get(from), val)
 				get(to).Add(get(to), val)
-			case TxSelfDestruct:
+			case TxSelfDestruct, TxDelegateSelfDestruct:
 				caddr := *tx.To()
 				get(from).Sub(get(from), val)
 				get(caddr).Add(get(caddr), val)
@@ -842,7 +860,7 @@ func GenLedger(rng *kernel.RNG, env *kernel.Env, k int) any {
 		for _, op := range ops {
 			// C06: a block that contains one invalid transaction arrives first
 			if op.Kind == "insert" && rng.Bool(0.3) {
-				out = append(out, Op{Kind: "mutant", Node: i, Blocks: []int{op.Blocks[0]}, Mut: MutTxNonceHigh + rng.Intn(NumAllMutations-MutTxNonceHigh), Arg: uint64(rng.Intn(64))})
+				out = append(out, Op{Kind: "mutant", Node: i, Blocks: []int{op.Blocks[0]}, Mut: append([]int{MutGasUsed, MutGasUsed}, MutTxNonceHigh, MutTxNonceLow, MutTxUnaffordable, MutTxIntrinsicLow, MutTxGasOverBlock)[rng.Intn(7)], Arg: uint64(rng.Intn(64))})
 			}
 			out = append(out, op)
 			if rng.Bool(0.04) {
